@@ -344,7 +344,8 @@ class BaseTemplate:
         class_name = "{}.{}".format(
             cls.__module__, cls.__qualname__).encode('utf-8')
         sha = get_pkg_digest()
-        sha.update(body.encode('utf-8', 'ignore'))
+        # (lone surrogates are text like any other: they must not drop out)
+        sha.update(body.encode('utf-8', 'surrogatepass'))
         sha.update(class_name)
         # A free name is compiled differently when it is the name of a
         # Python builtin - and that is a property of the process (an
